@@ -15,6 +15,10 @@
 //!   the named rule run on a thread with exactly that stack (std::thread::Builder::stack_size); progress is
 //!   flushed to stdout BEFORE each step: `BUILT <rules>`, `MIN v`, `MAX v|inf` (only with GVH_DEPTH_MAX=1),
 //!   `MS <len> <cost>` (only with GVH_DEPTH_MS=1), `MSS-CALL`, `MSS <n> <len of first> <cost of first>`, `END`.
+//!
+//! mode F (`c17q full`; one case per stdin line, one result line per case): `<kind> <hexsrc> ; <tokname>=<cost> …`
+//!   min_sentences of every rule on a fresh generator, the WHOLE list in the order returned, never abbreviated:
+//!   `<grammar dump> # COST t c … # MSS r ; tok… ; tok…` (a panic: `# MSS r P` / `# MSS r X <msg>`)
 use cfgrammar::yacc::YaccGrammar;
 use cfgrammar::{RIdx, TIdx};
 use gvh::common::*;
@@ -157,6 +161,44 @@ fn q_case(line: &str) -> String {
     o
 }
 
+fn full_case(line: &str) -> String {
+    let (head, tail) = match line.split_once(';') {
+        Some((h, t)) => (h, t),
+        None => (line, ""),
+    };
+    let mut hs = head.split_whitespace();
+    let kind = hs.next().unwrap_or("O").to_string();
+    let src = unhex(hs.next().unwrap_or(""));
+    let grm = match catch(AssertUnwindSafe(|| grammar(&kind, &src))) {
+        Err(m) => return format!("BUILDPANIC {}", clean(&m)),
+        Ok(Err(e)) => return e,
+        Ok(Ok(g)) => g,
+    };
+    let costs = token_costs(&grm, tail);
+    let mut o = dump_grammar(&grm);
+    write!(o, " # COST").unwrap();
+    for (t, c) in costs.iter().enumerate() {
+        write!(o, " {} {}", t, c).unwrap();
+    }
+    for r in grm.iter_rules() {
+        let c2 = costs.clone();
+        let sg = grm.sentence_generator(move |t: TIdx<u32>| c2[usize::from(t)]);
+        write!(o, " # MSS {}", usize::from(r)).unwrap();
+        match catch(AssertUnwindSafe(|| sg.min_sentences(r))) {
+            Ok(ss) => {
+                for s in ss {
+                    write!(o, " ;").unwrap();
+                    for t in s {
+                        write!(o, " {}", usize::from(t)).unwrap();
+                    }
+                }
+            }
+            Err(m) => write!(o, " {}", panic_code(&m)).unwrap(),
+        }
+    }
+    o
+}
+
 fn say(s: &str) {
     let out = std::io::stdout();
     let mut out = out.lock();
@@ -242,6 +284,10 @@ fn main() {
     if args.first().map(|a| a == "depth").unwrap_or(false) {
         let kib: usize = args.get(1).and_then(|v| v.parse().ok()).unwrap_or(2048);
         depth_main(kib);
+        return;
+    }
+    if args.first().map(|a| a == "full").unwrap_or(false) {
+        for_each_case(|line| full_case(line));
         return;
     }
     for_each_case(|line| q_case(line));
